@@ -11,7 +11,7 @@ T1 + T2 <= 7; the oracle demands the two results to be equal on the implementati
 theorems say they must (rules ignoring t: always; block engines: T1 odd)."""
 import numpy as np
 from harness.driver import call_impl, cz, cnat, cbool, czlist, cgrid, chist, clist, cres, cpair
-from harness.twins import make_rule, coq_rule_spec, Scribble, PredLt
+from harness.twins import make_rule, coq_rule_spec, Scribble, PredLt, dress, dress_pred, RULE_DRESSINGS, PRED_DRESSINGS
 from harness.props.c06 import rand_rule, rand_hist, ints, MEMOS, DTYPES, build_ca, build_rule, conv
 
 ID = 'C05'
@@ -141,6 +141,57 @@ BLOCKS2 = [((1, 1), (1, 1)), ((2, 2), (2, 2)), ((2, 2), (1, 2)), ((4, 2), (2, 2)
            ((3, 3), (3, 1)), ((3, 2), (1, 1)), ((2, 6), (2, 3))]                            # ((R, C), (b1, b2))
 
 
+def round5_cases(rng, tier):
+    per = 2 if tier == 'quick' else 10
+    # dtype/<complex64|complex128|object>/...: integer real part, zero imaginary part; object arrays of Python ints
+    for dtype in ('complex64', 'complex128', 'object'):
+        for dim in (1, 2):
+            for memo in MEMOS:
+                for form in ('fixed', 'callable', 'split'):
+                    for _ in range(per):
+                        shape, r, nb = (rng.randint(1, 5), 1, '-') if dim == 1 else \
+                            ((rng.randint(1, 3), rng.randint(1, 3)), rng.choice([0, 1]), rng.choice(['Moore', 'von Neumann']))
+                        kind = 'dtype/%s/%dd/%s/%s' % (dtype, dim, form, memo)
+                        if form == 'split':
+                            T1, T2 = rng.choice(PAIRS)
+                            yield _plain(rng, kind, dim, shape, r, nb, rng.randint(1, 3), dtype, 'lin', memo, T1=T1, T2=T2)
+                        else:
+                            extra = {'callable': True} if form == 'callable' else {}
+                            yield _plain(rng, kind, dim, shape, r, nb, rng.randint(1, 4), dtype, 'lin', memo,
+                                         T=rng.randint(1, 5), **extra)
+    # dress/<how>/... and pdress/<how>/...: the dressing is outermost; the model ignores it
+    per = 6 if tier == 'quick' else 24
+    for how in RULE_DRESSINGS:
+        for j in range(per):
+            dim = 1 + j % 2
+            fam, memo = PLAIN[(j // 2) % 5]
+            shape, r, nb = (rng.randint(1, 5), 1, '-') if dim == 1 else \
+                ((rng.randint(1, 3), rng.randint(1, 3)), 1, rng.choice(['Moore', 'von Neumann']))
+            kind = 'dress/%s/%dd/%s/%s' % (how, dim, fam, memo)
+            if j % 3 == 2:
+                T1, T2 = rng.choice(PAIRS)
+                yield _plain(rng, kind, dim, shape, r, nb, rng.randint(1, 3), rng.choice(DTYPES), fam, memo,
+                             T1=T1, T2=T2, dress=how)
+            else:
+                extra = {'callable': True} if j % 3 == 1 else {}
+                yield _plain(rng, kind, dim, shape, r, nb, rng.randint(1, 4), rng.choice(DTYPES), fam, memo,
+                             T=rng.randint(2, 5), dress=how, **extra)
+    for how in PRED_DRESSINGS:
+        for j in range(per):
+            dim = 1 + j % 2
+            fam, memo = PLAIN[j % 5]
+            shape, r, nb = (rng.randint(1, 5), 1, '-') if dim == 1 else \
+                ((rng.randint(1, 3), rng.randint(1, 3)), 1, rng.choice(['Moore', 'von Neumann']))
+            yield _plain(rng, 'pdress/%s/%dd/%s/%s' % (how, dim, fam, memo), dim, shape, r, nb, rng.randint(1, 4),
+                         rng.choice(DTYPES), fam, memo, T=rng.randint(1, 5), callable=True, pdress=how)
+    # alias/reversible: cpl.ReversibleRule(ca[-1], R) from a view of the evolved array (implementation only)
+    for j in range(8 if tier == 'quick' else 60):
+        N = rng.randint(3, 9)
+        yield {'kind': 'alias/reversible', 'eng': 'reversible', 'dim': 1, 'dtype': rng.choice(['int32', 'int64']),
+               'hist': [[rng.randint(0, 1) for _ in range(N)] for _ in range(rng.randint(1, 3))],
+               'T': rng.randint(3, 6), 'R': rng.choice([90, 30, 110, 150, 122])}
+
+
 def generate(rng, tier):
     i = rng.randrange(1000)
     HT = [(H, T) for H in range(1, 5) for T in range(1, 6)]
@@ -266,6 +317,9 @@ def generate(rng, tier):
             c['hist'] = hist
         c['finding'] = 'block-split-even'
         yield c
+    # (3e) round 5: complex / object automata; callables of another shape; a library rule built from a view
+    for c in round5_cases(rng, tier):
+        yield c
     # (4) random larger
     n_rand = 150 if tier == 'quick' else 2500
     for _ in range(n_rand):
@@ -289,8 +343,9 @@ def generate(rng, tier):
 # ---------------------------------------------------------------- implementation
 def _rule_obj(c):
     if c['eng'] == 'plain':
-        f = build_rule(c)
-        return Scribble(f) if c.get('scribble') else f
+        f = build_rule(c, dressed=False)
+        f = Scribble(f) if c.get('scribble') else f
+        return dress(f, c.get('dress'))          # the dressing is OUTERMOST
     return Blk1(c['rule']) if c['dim'] == 1 else Blk2(c['rule'])
 
 
@@ -332,11 +387,25 @@ def _arr(c, x):
     return conv(c, np.asarray(x))
 
 
+def _run_reversible(cpl, c):
+    """rule = ReversibleRule(ca[-1], R) built from a row VIEW of the very array that is evolved; compared with the
+    same evolution in which the rule got a private copy (implementation only)"""
+    ca = np.array(c['hist'], dtype=c['dtype'])
+    res = call_impl(lambda: cpl.evolve(ca, timesteps=c['T'], apply_rule=cpl.ReversibleRule(ca[-1], c['R']), r=1))
+    ca2 = np.array(c['hist'], dtype=c['dtype'])
+    ref = call_impl(lambda: cpl.evolve(ca2, timesteps=c['T'], apply_rule=cpl.ReversibleRule(ca2[-1].copy().tolist(), c['R']), r=1))
+    return ['ok', {'out': ['ok', np.asarray(res[1]).tolist()] if res[0] == 'ok' else list(res),
+                   'ref': ['ok', np.asarray(ref[1]).tolist()] if ref[0] == 'ok' else list(ref),
+                   'after': ca.tolist()}]
+
+
 def run_impl(c):
     import cellpylib as cpl
+    if c['eng'] == 'reversible':
+        return _run_reversible(cpl, c)
     ca, owner = make_ca(c)
     if 'T' in c:
-        ts = PredLt(c['T']) if c.get('callable') else c['T']
+        ts = dress_pred(PredLt(c['T']), c.get('pdress')) if c.get('callable') else c['T']
         res = call_impl(lambda: _call(cpl, c, ca, ts, _rule_obj(c)))
         after = conv(c, ca) if _pad_ok(c, owner) else None
         if res[0] != 'ok':
@@ -368,6 +437,8 @@ def _cres_arr(o, carr):
 
 
 def to_coq(c, obs):
+    if c['eng'] == 'reversible':
+        return 'CSkip5'
     one = c['dim'] == 1
     carr = cgrid if one else chist
     if c['eng'] == 'plain':
@@ -393,7 +464,7 @@ def to_coq(c, obs):
 
 
 def nontrivial(c, obs):
-    if obs[0] != 'ok':
+    if obs[0] != 'ok' or c['eng'] == 'reversible':
         return False
     if 'T' in c:
         return c['T'] >= 2
@@ -404,6 +475,17 @@ def nontrivial(c, obs):
 def oracle(c, obs):
     hist = c['hist']
     H = len(hist)
+    if c['eng'] == 'reversible':
+        o = obs[1]
+        if o['after'] != hist:
+            return "the caller's array was modified (the rule object kept a view of it)"
+        if o['out'][0] != 'ok' or o['ref'][0] != 'ok':
+            return 'a call raised'
+        if o['out'][1][:H] != hist:
+            return 'the first %d rows of the result are not the given rows' % H
+        if o['out'][1] != o['ref'][1]:
+            return 'the result differs from the run whose rule object got a private copy of the row'
+        return None
     if 'T' in c:
         if obs[0] != 'ok':
             return 'the call raised %s' % obs[1]
